@@ -106,7 +106,7 @@ def o2_router(ctx, role, lvl, lf, ld, n, mlvl=False):
     ctx.reached()
 
 
-def o3_destination(ctx, role, lvl, lf, n, second=None):
+def o3_destination(ctx, role, lvl, lf, n, second=None, same_sender=False):
     clock = fresh_env(ctx)
     radio, node, addr = build_node(ctx, clock, role, lvl)
     link, outcome = per_packet_link(ctx, radio, always=True)
@@ -130,9 +130,15 @@ def o3_destination(ctx, role, lvl, lf, n, second=None):
     msg2 = None
     if second is not None:
         # a second message (another origin), sent after the first was delivered completely but before the application read it
-        f2 = sym_addr(ctx, "F2", (lf + 1) % 5)
-        ctx.assume(s_and(f2 != addr, f2 != f))
-        fid2, t2 = ctx.int("id2", 0, 0xFFFF), ctx.int("type2", 0, 127)
+        first_read = None
+        if same_sender:
+            # the same sender re-uses its header (same frame id) for its next message, after the application read the first one
+            first_read = queue_frames(node)
+            f2, fid2, t2 = f, fid, ctx.int("type2", 0, 127)
+        else:
+            f2 = sym_addr(ctx, "F2", (lf + 1) % 5)
+            ctx.assume(s_and(f2 != addr, f2 != f))
+            fid2, t2 = ctx.int("id2", 0, 0xFFFF), ctx.int("type2", 0, 127)
         msg2 = blist(ctx.bytes("msg2", second))
         for i, fr in enumerate(FS.fragments(f2, addr, fid2, t2, msg2) if second > 24 else
                                [dict(from_node=f2, to_node=addr, frame_id=fid2, message_type=t2, reserved=0, len=second,
@@ -142,6 +148,8 @@ def o3_destination(ctx, role, lvl, lf, n, second=None):
             radio.inject_rx(2, wire)
             node.update()
     q = queue_frames(node)
+    if second is not None and same_sender:
+        q = first_read + q
     ctx.check(len(q) == (1 if second is None else 2), "each message is delivered to the destination's queue exactly once")
     if len(q) >= 1:
         h = q[0].header
@@ -254,6 +262,8 @@ def jobs(tier):
         for l in ((0,) if r == "master" else range(0 if r == "net" else 1, 5)):
             for n in ((0, 24, 25, 144) if tier == "quick" else lens):
                 out.append(Job("O3-destination-step", o3_destination, dict(role=r, lvl=l, lf=(l + 2) % 5, n=n), cost=4 + n // 24))
+    for n, sec in ((30, 40), (49, 49), (5, 30), (30, 5)):
+        out.append(Job("O3-destination-step-two-messages-one-header", o3_destination, dict(role="net", lvl=2, lf=1, n=n, second=sec, same_sender=True), cost=10))
     for n, sec in ((30, 40), (144, 25), (5, 30), (30, 5)):
         out.append(Job("O3-destination-step-two-messages", o3_destination, dict(role="net", lvl=2, lf=1, n=n, second=sec), cost=10))
     for tree, routes in ROUTES.items():
